@@ -148,6 +148,8 @@ pub fn run(opts: &Opts) -> i32 {
     let seed = opts.u64("seed", 1);
     let shards = opts.u64("shards", 16);
     let per = opts.u64("n", if opts.thorough() { 60 } else { 5 });
+    // damage=<k>: every source gets damage kind k (9 = pending-batch journal with a marker across a journaled extent)
+    let force_damage = opts.u64("damage", 0);
     let keep = format!("{dir}/images");
     std::fs::create_dir_all(&keep).unwrap();
     let mut handles = Vec::new();
@@ -187,9 +189,10 @@ pub fn run(opts: &Opts) -> i32 {
                 }
                 // synthesised damage on some sources
                 let mut label = format!("v{version}");
-                if rng.chance(2, 5) {
+                if force_damage != 0 || rng.chance(2, 5) {
                     let mut img = std::fs::read(&src).unwrap();
-                    let name = match rng.below(8) {
+                    let name = match if force_damage != 0 { force_damage } else { rng.below(8) } {
+                        9 => crate::mutimg::pending_batch_journal_opt(&mut rng, &mut img, true).unwrap_or("none"),
                         6 | 7 => {
                             // a file that was extended after it was formatted: the header still records
                             // the old, smaller device size (it is written once); records live beyond it
@@ -198,6 +201,7 @@ pub fn run(opts: &Opts) -> i32 {
                             for copy in [0usize, 7] {
                                 if let Some(mut m) = feoxdb::storage::metadata::Metadata::from_bytes(&img[copy * 4096..(copy + 1) * 4096]) {
                                     m.device_size = old_blocks * 4096;
+                                    m.update(); // recomputes the checksum (the generation stays)
                                     let enc = m.encode();
                                     img[copy * 4096..copy * 4096 + enc.len()].copy_from_slice(&enc);
                                 }
